@@ -146,6 +146,17 @@ func propC03(c *Ctx) {
 	for i := 0; i < n/10+20; i++ {
 		runCalcHistory(c, g)
 	}
+	// evaluate, change the variable collection (shrink, clear, re-order, grow), evaluate again without setting the expression anew
+	for _, e := range []string{"a + b", "b * 2", "Max(a, b)", "x + 1", "a[0]", "b", "a + b + x"} {
+		set := "set:" + strRunes(e)
+		for _, mid := range [][]string{{"vrem:b"}, {"vrem:a"}, {"vclear"}, {"vrem:a", "vadd:a"}, {"vadd:x", "vrem:a"}, {"vrem:b", "vrem:a"}, {"vadd:x"}, {"vclear", "vadd:b"}} {
+			for _, ev := range []string{"evalv", "eval"} {
+				steps := append(append([]string{set, ev}, mid...), ev, ev)
+				runCalcHistorySteps(c, steps)
+				runCalcHistorySteps(c, append(append([]string{set, ev, ev}, mid...), ev, "clear", ev))
+			}
+		}
+	}
 	if crashTemplates != nil {
 		crashTemplates(c)
 	}
